@@ -76,7 +76,7 @@ def cfgStep (c : CfgR) (ws : List String) : Option CfgR :=
     | some .req, some x, some y => updFlow c (pctDec f) fun r => { r with req := r.req ++ [⟨x, y⟩] }
     | some .res, some x, some y => updFlow c (pctDec f) fun r => { r with res := r.res ++ [⟨x, y⟩] }
     | _, _, _ => none
-  | ["quota", id, k, u] =>
+  | "quota" :: id :: k :: u :: more =>
     let conc := match kv [k] "kind" with
       | some "fixed" => some false
       | some "concurrent" => some true
@@ -86,7 +86,9 @@ def cfgStep (c : CfgR) (ws : List String) : Option CfgR :=
       | some "wild" => some true
       | _ => none
     match conc, wild with
-    | some cc, some w => some { c with quotas := c.quotas ++ [⟨pctDec id, (pctDec id).replace "." "", cc, w⟩] }
+    | some cc, some w =>
+      let ms := (((kv more "m").map fun s => if s == "" || s == "-" then [] else s.splitOn ",").getD []).map pctDec
+      some { c with quotas := c.quotas ++ [⟨pctDec id, (pctDec id).replace "." "", cc, w, ms⟩] }
     | _, _ => none
   | _ => none
 
@@ -101,15 +103,23 @@ def parsePair (w : String) : String × Option String :=
   | [] => ("", none)
 
 /-- `flow <name> kind=user [m=GET,POST] [h=k:v,…] [st=200,…] [q=k:v,k,…]` -/
+def parseUrl (ws : List String) : String :=
+  match kv ws "u" with
+  | some "wild" => "*"
+  | some "y" => "y"
+  | _ => "x"
+
 def parseFilter (ws : List String) : Filter :=
-  { methods := ((kv ws "m").map splitList).getD [] |>.map pctDec
+  { url := parseUrl ws
+    methods := ((kv ws "m").map splitList).getD [] |>.map pctDec
     headers := (((kv ws "h").map splitList).getD []).map fun w => let p := parsePair w; (p.1, p.2.getD "")
     status := (((kv ws "st").map splitList).getD []).filterMap String.toNat?
     query := (((kv ws "q").map splitList).getD []).map parsePair }
 
 /-- `txn … [m=GET] [h=k:v,…] [q=k:v,…] [st=200] [rm=GET]` -/
 def parseAttrs (ws : List String) : TxnAttrs :=
-  { method := ((kv ws "m").map pctDec).getD "GET"
+  { url := parseUrl ws
+    method := ((kv ws "m").map pctDec).getD "GET"
     headers := (((kv ws "h").map splitList).getD []).map fun w => let p := parsePair w; (p.1, p.2.getD "")
     query := (((kv ws "q").map splitList).getD []).map fun w => let p := parsePair w; (p.1, p.2.getD "")
     status := ((kv ws "st").bind String.toNat?).getD 200
@@ -122,6 +132,17 @@ def addFilter (fs : Filters) (ws : List String) : Filters :=
   match ws with
   | "flow" :: n :: "kind=user" :: rest => (pctDec n, parseFilter rest) :: fs
   | _ => fs
+
+/-- filters of the system flows: those of their quotas (one system flow pair per filter group) -/
+def sysFilters (c : CfgR) : Filters :=
+  c.quotas.flatMap fun q =>
+    let g := c.quotas.filter (·.fkey == q.fkey)
+    match g with
+    | q0 :: _ =>
+      let u := if q.wild then "*" else "x"
+      [("SystemFlow_" ++ q0.id ++ "_SYSTEM_FLOW_START", { url := u, methods := q.methods }),
+       ("SystemFlow_" ++ q0.id ++ "_SYSTEM_FLOW_END", { url := u, methods := q.methods })]
+    | [] => []
 
 def parseOrder (ws : List String) : List String :=
   match kv ws "order" with
@@ -271,7 +292,21 @@ def runStep (s : RunSt) (line : String) : RunSt × String :=
       | some l =>
         if l.unsafeCycle then (s, "unsafe-cycle")
         else (s, fmtTxn (userNames s.cfg) s.owners
-          (transactionSel s.filters (parseAttrs rest) l.selected t.toOracle (fuelFor l.selected) d))
+          (transactionSel (s.filters ++ sysFilters s.cfg) (parseAttrs rest) l.selected t.toOracle (fuelFor l.selected) d))
+    | _, _ => (s, "bad-op")
+  | "pair" :: rest =>
+    -- two request transactions overlapping in time: what runs for each must be what runs for it alone
+    match (kv rest "o1").bind parseOracle, (kv rest "o2").bind parseOracle with
+    | some t1, some t2 =>
+      match s.loaded with
+      | none => (s, "not-loaded")
+      | some l =>
+        if l.unsafeCycle then (s, "unsafe-cycle") else
+        let run := fun (u : String) (t : OTable) =>
+          fmtTxn (userNames s.cfg) s.owners
+            (transactionSel (s.filters ++ sysFilters s.cfg) { url := u } l.selected t.toOracle (fuelFor l.selected) .req)
+        (s, run (parseUrl [((kv rest "u1").map ("u=" ++ ·)).getD ""]) t1 ++ " " ++
+            run (parseUrl [((kv rest "u2").map ("u=" ++ ·)).getD ""]) t2)
     | _, _ => (s, "bad-op")
   | _ =>
     match cfgStep s.cfg ws with
@@ -305,6 +340,25 @@ def parseErr : String → Option (Option ExecErr)
   | "err:missing" => some (some .missing)
   | _ => none
 
+/-- judge one executed transaction: observed outcome word `res`, observed events word `ev` -/
+def judgeOne (s : JudgeSt) (op : String) (attrs : TxnAttrs) (d : Dir) (t : OTable) (res ev : String) : JudgeSt :=
+  match parseErr res, kv [ev] "ev" with
+  | some err, some evs =>
+    let events := if evs == "-" then some [] else (evs.splitOn ",").mapM parseEvent
+    match events with
+    | none => { s with bad := some ("unparsable-events:" ++ pctEnc ev) }
+    | some tr =>
+      let (sc, asym) := match (if s.cfg.flows.any (·.rep.borrows) then none else s.cfg.base?) with
+        | some c => (specCfg c s.order, false)
+        | none => (specCfgR s.cfg s.order, refDiverges s.cfg)
+      match judgeTxnSel (s.filters ++ sysFilters s.cfg) attrs sc (userNames s.cfg) (instSpec s.cfg) t.toOracle d tr err with
+      | none => s
+      | some (fid0, msg) =>
+        let fid := if fid0 == "-" && asym then "F04f" else fid0
+        let m := msg ++ " txn=" ++ pctEnc op
+        if fid == "-" then { s with failUnk := s.failUnk <|> some m } else { s with fail := s.fail <|> some (fid, m) }
+  | _, _ => { s with bad := some ("unparsable-txn:" ++ pctEnc (res ++ " " ++ ev)) }
+
 def judgeStep (s : JudgeSt) (op out : String) : JudgeSt :=
   let ws := words op
   match ws with
@@ -325,23 +379,21 @@ def judgeStep (s : JudgeSt) (op out : String) : JudgeSt :=
     if s.failUnk.isSome || s.bad.isSome then s else
     match words out with
     | [res, ev, _acts] =>
-      match (kv rest "dir").bind parseDir, (kv rest "o").bind parseOracle, parseErr res, kv [ev] "ev" with
-      | some d, some t, some err, some evs =>
-        let events := if evs == "-" then some [] else (evs.splitOn ",").mapM parseEvent
-        match events with
-        | none => { s with bad := some ("unparsable-events:" ++ pctEnc out) }
-        | some tr =>
-          let (sc, asym) := match (if s.cfg.flows.any (·.rep.borrows) then none else s.cfg.base?) with
-            | some c => (specCfg c s.order, false)
-            | none => (specCfgR s.cfg s.order, refDiverges s.cfg)
-          match judgeTxnSel s.filters (parseAttrs rest) sc (userNames s.cfg) (instSpec s.cfg) t.toOracle d tr err with
-          | none => s
-          | some (fid0, msg) =>
-            let fid := if fid0 == "-" && asym then "F04f" else fid0
-            let m := msg ++ " txn=" ++ pctEnc op
-            if fid == "-" then { s with failUnk := some m } else { s with fail := s.fail <|> some (fid, m) }
-      | _, _, _, _ => { s with bad := some ("unparsable-txn:" ++ pctEnc out) }
+      match (kv rest "dir").bind parseDir, (kv rest "o").bind parseOracle with
+      | some d, some t => judgeOne s op (parseAttrs rest) d t res ev
+      | _, _ => { s with bad := some ("unparsable-txn:" ++ pctEnc out) }
     | _ => s   -- not-loaded / unsafe-cycle / bad-op: nothing was executed
+  | "pair" :: rest =>
+    if s.failUnk.isSome || s.bad.isSome then s else
+    match words out with
+    | [res1, ev1, _, res2, ev2, _] =>
+      match (kv rest "o1").bind parseOracle, (kv rest "o2").bind parseOracle with
+      | some t1, some t2 =>
+        let u := fun (k : String) => parseUrl [((kv rest k).map ("u=" ++ ·)).getD ""]
+        let s1 := judgeOne s (op ++ " [first]") { url := u "u1" } .req t1 res1 ev1
+        judgeOne s1 (op ++ " [second]") { url := u "u2" } .req t2 res2 ev2
+      | _, _ => { s with bad := some ("unparsable-pair:" ++ pctEnc out) }
+    | _ => s
   | _ =>
     match cfgStep s.cfg ws with
     | some c => { s with cfg := c, filters := addFilter s.filters ws }
